@@ -23,9 +23,14 @@ pub struct Base {
     pub toks: Vec<RTok>,
 }
 
-const EXTRA: &[&str] = &[";", "1.5", "7", "-1", "4294967296", "99999999999999999999", "0", "nm", "\"s\"", "\"\"", "\"\u{e9}\"", "\"\u{e9}]\"", "\"\u{20ac}\"", "\"[\u{1f600}\"", "\"unterminated", "-", ".", "1e9", "-inf", "#c"];
-/// 2-, 3-, 4-byte characters, a combining mark, U+00A0 and U+2028
-const NONASCII: &[&str] = &["é", "€", "😀", "e\u{301}", "\u{a0}", "\u{2028}"];
+const EXTRA: &[&str] = &[";", "1.5", "7", "-1", "4294967296", "99999999999999999999", "0", "nm", "\"s\"", "\"\"", "\"\u{e9}\"", "\"\u{e9}]\"", "\"\u{20ac}\"", "\"[\u{1f600}\"", "\"unterminated", "-", ".", "1e9", "-inf", "#c",
+    // tokens that begin with a non-ASCII character of Unicode's numeric classes (2- and 3-byte), alone, followed
+    // by ASCII digits, and followed by a multi-byte white-space character (U+3000)
+    "\u{b2}", "\u{663}7", "\u{2460}", "\u{bd}x", "\u{ff11}\u{3000}x",
+];
+/// 2-, 3-, 4-byte characters, a combining mark, U+00A0 and U+2028; a 2-byte numeric (superscript two), a 3-byte
+/// digit (fullwidth one) and the 3-byte white-space character U+3000
+const NONASCII: &[&str] = &["é", "€", "😀", "e\u{301}", "\u{a0}", "\u{2028}", "\u{b2}", "\u{ff11}", "\u{3000}"];
 
 fn repl() -> &'static Vec<String> {
     static R: OnceLock<Vec<String>> = OnceLock::new();
@@ -254,6 +259,12 @@ pub fn text_of(key: &str) -> Option<String> {
             s.push('\n');
             Some(s)
         }
+        // as "x", the text ending with the last character of the last token (no final new-line)
+        ["y", c, seq] => {
+            let mut s = text_of(&format!("x:{c}:{seq}"))?;
+            s.pop();
+            Some(s)
+        }
         _ => None,
     }
 }
@@ -341,7 +352,7 @@ impl Driver for C11 {
         let nchar: usize = bs.iter().map(|b| b.text.chars().count()).sum();
         Describe {
             rule: format!(
-                "{} base texts ({} tokens, {} characters): the default rendering of every generator focus plus variants (versions, no END LIBRARY, mixed case, joined properties, all nine geometries), every raw string literal of lef21/src/tests.rs and read.rs, macro.lef, lib1.yaml, lib2.yaml, the empty file. Faults: every character-boundary prefix; at every token (comments and string literals included): deleted, duplicated, swapped with the next, replaced by each of {} tokens ({} keywords / enumeration words, ';', numbers, a name, a string literal, the empty string literal, an unterminated string, '-', '.', 1e9, -inf, a comment); {} non-ASCII strings (2-, 3-, 4-byte, combining, U+00A0, U+2028) inserted inside the token, as a token of its own, glued before / after it and in a comment before it{}; after each of {} parser contexts every token sequence of length <= {} over the same {} tokens. distinct = distinct text (sequences are distinct by construction); non-trivial = non-blank text.",
+                "{} base texts ({} tokens, {} characters): the default rendering of every generator focus plus variants (versions, no END LIBRARY, mixed case, joined properties, all nine geometries), every raw string literal of lef21/src/tests.rs and read.rs, macro.lef, lib1.yaml, lib2.yaml, the empty file. Faults: every character-boundary prefix; at every token (comments and string literals included): deleted, duplicated, swapped with the next, replaced by each of {} tokens ({} keywords / enumeration words, ';', numbers, a name, a string literal, the empty string literal, an unterminated string, '-', '.', 1e9, -inf, a comment, five tokens starting with a non-ASCII numeric character); {} non-ASCII strings (2-, 3-, 4-byte, combining, U+00A0, U+2028, superscript two, fullwidth one, U+3000) inserted inside the token, as a token of its own, glued before / after it and in a comment before it{}; after each of {} parser contexts every token sequence of length <= {} over the same {} tokens, ending with a new-line and (length <= 2) ending with the last token's last character. distinct = distinct text (sequences are distinct by construction); non-trivial = non-blank text.",
                 bs.len(), ntok, nchar, repl().len(), lr::KEYWORDS.len(), NONASCII.len(),
                 format!("; on the {} smallest bases with at least 8 tokens every pair of faults (reduced operation set: delete, duplicate, swap, 25 replacements) at two non-adjacent tokens", tier.pick(6, 16)),
                 CONTEXTS.len(), tier.pick(2, 3), repl().len()
@@ -453,10 +464,12 @@ impl Driver for C11 {
                 let depth = cx.tier.pick(2, 3);
                 let mut count = 0u64;
                 self.run_key(&format!("x:{c}:{a}"), false, cx);
-                count += 1;
+                self.run_key(&format!("y:{c}:{a}"), false, cx);
+                count += 2;
                 for b in 0..n {
                     self.run_key(&format!("x:{c}:{a}.{b}"), false, cx);
-                    count += 1;
+                    self.run_key(&format!("y:{c}:{a}.{b}"), false, cx);
+                    count += 2;
                     if depth >= 3 {
                         for d in 0..n {
                             self.run_key(&format!("x:{c}:{a}.{b}.{d}"), false, cx);
@@ -503,7 +516,7 @@ impl Driver for C11 {
         }
     }
     fn render_case(&self, _tier: Tier, key: &str) -> Value {
-        let base = key.split(':').nth(1).and_then(|b| b.parse::<usize>().ok()).filter(|_| !key.starts_with("x:"));
+        let base = key.split(':').nth(1).and_then(|b| b.parse::<usize>().ok()).filter(|_| !key.starts_with("x:") && !key.starts_with("y:"));
         json!({
             "key": key,
             "base": base.and_then(|b| bases().get(b)).map(|b| b.name.clone()),
